@@ -1139,9 +1139,19 @@ func directed(newHist func(label string) *hist, finish func(*hist), vr variant) 
 		finish(h)
 	}
 	// ---- address rotation by x/recovery: the custody records and the funds move to a fresh address
-	for sc := 0; sc < 9; sc++ {
+	for sc := 0; sc < 10; sc++ {
 		h := newHist(fmt.Sprintf("rotation/%d", sc))
 		switch sc {
+		case 9: // a custodian rotates, the owner lists the new address as well: one person, two votes
+			h.guard(V, 100, false, false, false, []int{2}, nil, -1)
+			x := h.send(V, 5, 1000, 1, false, []int64{600}).Hash
+			h.rotate(2, 7, true)
+			h.keyed(op{Kind: "add_custodians", Signer: V, Adds: []int{7}}, "", true, "")
+			h.approve(2, V, x)
+			h.approve(7, V, strings.ToUpper(x))
+			y := h.send(V, 5, 500, 1, false, []int64{600}).Hash
+			h.approve(7, V, y)
+			h.decline(2, V, y)
 		case 8: // after the rotation a stranger drops the custody record of the new address while a transfer waits for its password
 			h.guard(V, 100, true, false, false, []int{2, 3}, nil, -1)
 			h.rotate(V, 6, true)
@@ -1218,6 +1228,75 @@ func directed(newHist func(label string) *hist, finish func(*hist), vr variant) 
 			h.approve(4, 6, x)
 		}
 		finish(h)
+	}
+	// ---- the rotated address plays every role at once: owner, custodian of itself and of another account,
+	// whitelisted recipient, recipient of a pending transfer, voter with marks on its own and on another
+	// account's transfer; after the rotation BOTH the old and the new address retry every vote / confirmation
+	for _, pre := range []string{"approve", "decline", "none"} {
+		for _, mode := range []uint64{100, 50} {
+			for _, pwd := range []bool{false, true} {
+				for _, addNew := range []bool{false, true} {
+					h := newHist(fmt.Sprintf("roles/%s/mode%d/pwd%v/new%v", pre, mode, pwd, addNew))
+					// an account whose own custody is enabled cannot vote (the decorator refuses its approvals): with a
+					// password the record is first created disabled (transfers are pooled all the same), the owner votes on
+					// its own transfer, and custody is enabled afterwards
+					late := pwd
+					if late {
+						h.keyed(op{Kind: "create_custody", Signer: V, Set: []uint64{0, mode, 1, 1, 0}}, "", true, "")
+						h.keyed(op{Kind: "add_custodians", Signer: V, Adds: []int{V, 2}}, "", true, "")
+						h.keyed(op{Kind: "add_whitelist", Signer: V, Adds: []int{5}}, "", true, "")
+					} else {
+						h.guard(V, mode, pwd, true, false, []int{V, 2}, []int{5}, -1)
+					}
+					h.guard(A, 100, false, true, false, []int{V, 3}, []int{V}, -1)
+					hx := h.send(V, 5, 1000, 1, true, []int64{400}).Hash
+					ha := h.send(A, V, 700, 2, true, []int64{400}).Hash
+					switch pre {
+					case "approve":
+						h.approve(V, V, hx)
+						h.approve(V, A, ha)
+					case "decline":
+						h.decline(V, V, hx)
+						h.decline(V, A, ha)
+					}
+					if late {
+						h.keyed(op{Kind: "create_custody", Signer: V, Set: []uint64{1, mode, 1, 1, 0}}, "", true, "")
+					}
+					if pwd && mode == 100 {
+						h.confirm(V, V, hx, pword(1))
+					}
+					h.rotate(V, 6, true)
+					if addNew { // the owner lists the new address as well: one person, two listed addresses
+						h.keyed(op{Kind: "add_custodians", Signer: 6, Adds: []int{6}}, "", true, "")
+						h.keyed(op{Kind: "add_custodians", Signer: A, Adds: []int{6}}, "", true, "")
+					}
+					for _, tgt := range []struct {
+						t int
+						x string
+					}{{6, hx}, {V, hx}, {A, ha}} {
+						for _, voter := range []int{V, 6} {
+							if pre == "decline" {
+								h.decline(voter, tgt.t, tgt.x)
+							}
+							h.approve(voter, tgt.t, strings.ToUpper(tgt.x[:4])+tgt.x[4:])
+							h.decline(voter, tgt.t, tgt.x)
+						}
+					}
+					if pwd {
+						h.confirm(V, 6, hx, pword(1))
+						h.confirm(6, 6, hx, pword(1))
+						h.confirm(6, V, hx, pword(1))
+					}
+					h.approve(2, 6, hx)
+					h.approve(3, A, ha)
+					h.bank("bank_send", 1, V, 3000)
+					h.approve(2, 6, hx)
+					h.bank("bank_send", 6, 5, 10)
+					h.bank("bank_send", V, 5, 10)
+					finish(h)
+				}
+			}
+		}
 	}
 	// ---- transactions of several custody / bank messages: the decorator looks at all of them
 	for sc := 0; sc < 10; sc++ {
@@ -1386,8 +1465,12 @@ func random(h *hist) {
 	if g.Chance(15) {
 		custs = custs[:1]
 	}
+	if g.Chance(25) {
+		custs = append(custs, owner) // the owner is one of its own custodians
+	}
 	mode := modes[g.Intn(len(modes))]
 	usePw, useWl, useLim := g.Chance(35), g.Chance(40), g.Chance(25)
+	var olds []int // addresses that were rotated away: they keep acting
 	if g.Chance(90) {
 		var white []int
 		cap := int64(-1)
@@ -1430,6 +1513,9 @@ func random(h *hist) {
 		case 8:
 			return other
 		}
+		if len(olds) > 0 && g.Chance(60) {
+			return olds[g.Intn(len(olds))]
+		}
 		return g.Intn(N)
 	}
 	pickHash := func() (string, int) {
@@ -1458,15 +1544,20 @@ func random(h *hist) {
 	nops := 6 + g.Intn(14)
 	fresh := 6
 	for i := 0; i < nops; i++ {
-		if g.Chance(4) && fresh <= 7 { // address rotation of the owner (or of a custodian), mostly with the right proof
+		if g.Chance(6) && fresh <= 7 { // address rotation of the owner (or of a custodian), mostly with the right proof
 			a := owner
 			if g.Chance(20) {
 				a = 2
 			}
 			if h.rotate(a, fresh, g.Chance(85)).Outcome == "ok" {
+				olds = append(olds, a)
 				if a == owner {
 					owner = fresh
+					if g.Chance(30) { // the new address is listed as well
+						h.keyed(op{Kind: "add_custodians", Signer: owner, Adds: []int{owner}}, "", true, "")
+					}
 				}
+				custs = append(custs, fresh)
 				fresh++
 			}
 			continue
